@@ -356,6 +356,28 @@ Fixpoint wfo (o : obj) : bool :=
   | _ => true
   end.
 
+(* the wider domain on which the model is claimed faithful (border stream): wf without the clauses `one strand per feature`,
+   `locations in order` and `no lower-case residue` (ASCII residues: upper1 models str.upper on ASCII only) *)
+Fixpoint wfx (o : obj) : bool :=
+  match o with
+  | OList l => forallb wfx l
+  | ODict kv => nodup_keys (keys kv) && negb (has_key K_cls kv) && forallb (fun p => wfx (snd p)) kv
+  | OAttr _ kv => ok_attr_shape kv && forallb (fun p => wfx (snd p)) kv
+  | OLoc a b s d m =>
+      Z.ltb a b && is_strand s && Z.leb 0 d && Z.ltb d 256
+      && match m with None => true | Some kv => ok_attr_shape kv && forallb (fun p => wfx (snd p)) kv end
+  | OFeat m locs =>
+      ok_attr_shape m && forallb (fun p => wfx (snd p)) m
+      && match locs with [] => false | _ => true end && forallb is_loc locs && forallb wfx locs
+  | OFts data => forallb wfx data
+  | OSeq d m t =>
+      forallb (fun c => N.ltb (Byte.to_N c) 128) d && (str_eqb t N_nt || str_eqb t N_aa) && has_key K_id m
+      && ok_attr_shape m && forallb (fun p => wfx (snd p)) m
+  | OBasket data m =>
+      forallb is_seq data && forallb wfx data && ok_attr_shape m && forallb (fun p => wfx (snd p)) m
+  | _ => true
+  end.
+
 (* ---- the byte level of write / read ---------------------------------------------------------------------------------------- *)
 Definition write_bytes (b : obj) : str := print (write_sjson b).
 (* json.JSONDecodeError is a ValueError *)
@@ -373,6 +395,8 @@ Fixpoint show_json (j : json) : val :=
 (* the written text of a basket, and what reading that text gives *)
 Definition run_C14_text (b : obj) : val :=
   VL [VB (wf_C14 b && wfo b); VS (write_bytes b); show_res (write_read_bytes b)].
+Definition run_C14_border (b : obj) : val :=
+  VL [VB (is_basket b && wfx b && wfo b); VS (write_bytes b); show_res (write_read_bytes b)].
 (* json.loads of an arbitrary text: [in-domain flag; tree or error] *)
 Definition run_C14_loads (s : str) : val :=
   match loads (S (List.length s)) s with
